@@ -248,7 +248,7 @@ func markerName(n int) string {
 func markerIndex(s string) (int, bool) {
 	if strings.HasPrefix(s, markerPrefix) {
 		n, err := strconv.Atoi(s[len(markerPrefix):])
-		if err == nil {
+		if err == nil && n >= 0 {
 			return n, true
 		}
 	}
